@@ -135,6 +135,9 @@ class Engine(object):
         if modname in ('nx', 'networkx'):
             if attr in EXC_PARENTS:
                 return VExcClass(attr)
+        if modname == 'tqdm' and attr == 'tqdm':
+            interp.ctx.notes.append('trusted: tqdm(x, ...) iterates x')
+            return VCallable(lambda i, a, k, f: a[0], 'tqdm')
         if modname in ('nx', 'networkx') and attr == 'DiGraph':
             # a fresh plain networkx DiGraph: an opaque object (only used by code that is outside the contracts)
             def mk(i, a, k, f):
@@ -157,7 +160,7 @@ class Engine(object):
             return VType(name)
         if name in BUILTINS:
             return VCallable(BUILTINS[name], name)
-        if name in ('nx', 'np', 'copy', 'dn'):
+        if name in ('nx', 'np', 'copy', 'dn', 'tqdm') and not (name == 'tqdm' and fr.modname == 'assortativity'):
             return VModule(name)
         if name == 'tqdm':
             # trusted: tqdm(iterable, ...) iterates its first argument, in order
@@ -350,6 +353,8 @@ def b_len(interp, argv, kwv, fr):
         return b_len(interp, [interp.esc_target(v)], kwv, fr)
     if v.kind == 'path':
         return VInt(v.w.PL(v.c))
+    if v.kind == 'trp':
+        return VInt(v.n)
     if v.kind == 'nodedict':
         from .loops import VBag
         NodeIn = v.g['NodeIn']
